@@ -1,5 +1,8 @@
 import ACModel.Model.Remove
 import ACModel.Props.C17
+import ACModel.Props.C09
+import ACModel.Model.Pipeline
+import ACModel.Proofs.GroupedList
 /-
   C08 — fit ends in a coherent fitted object or a clean AssertionError
 
@@ -176,4 +179,176 @@ theorem fit_labels_keys (s s' : Disc) (h : s.fit = .ok s') : ∀ f, f ∈ akeys 
       subst h
       exact labelsPerValues_keys s s.outFloat t ht
 
+/-! ## The base discretizers, as whole compositions, return well-formed ordered partitions
+
+`Model/Pipeline.lean` composes the numeric cores with the very `GroupedList` operations the classes
+call; every result is a well-formed `GroupedList` (unique leaders = keys of `content`, disjoint
+groups, each leader in its own group), whatever the sample and `min_freq`. -/
+
+open Pipeline in
+theorem strictSorted_nodup : ∀ {l : List Rat}, C09.StrictSorted l → l.Nodup := by
+  intro l h
+  unfold C09.StrictSorted at h
+  exact h.imp (fun hab => by intro e; subst e; exact absurd hab (Rat.lt_irrefl))
+
+theorem quantileLeaders_nodup (h : BaseDisc.Hist) (lenDf q : Nat) :
+    ((BaseDisc.findQuantiles h lenDf q).map Val.num ++ [Val.inf]).Nodup := by
+  have hn := strictSorted_nodup (C09.findQuantiles_strict h lenDf q)
+  rw [List.nodup_append]
+  refine ⟨?_, by simp, ?_⟩
+  · exact List.Pairwise.map Val.num (fun a b hab e => hab (by injection e)) hn
+  · intro a ha b hb
+    simp only [List.mem_map] at ha
+    obtain ⟨x, _, rfl⟩ := ha
+    simp only [List.mem_singleton] at hb
+    subst hb; intro e; cases e
+
+theorem values_ofList (l : List Val) (hn : l.Nodup) : (GL.ofList l).values = l := by
+  unfold GL.values GL.ofList
+  simp only
+  rw [GL.ofKeys_eq_map _ hn]
+  unfold Dict.allValues
+  induction l with
+  | nil => rfl
+  | cons a t ih => simp [List.flatMap_cons] at ih ⊢; exact ih (List.nodup_cons.1 hn).2
+
+/-- `ContinuousDiscretizer`: the fitted order of every feature is well formed -/
+theorem contOrder_WF (h : Pipeline.QHist) (nNan q : Nat) (strNan : String) :
+    (Pipeline.contOrder h nNan q strNan).WF := by
+  unfold Pipeline.contOrder
+  have hn := quantileLeaders_nodup (Pipeline.hist h) (BaseDisc.total (Pipeline.hist h) + nNan) q
+  have h0 := GL.ofList_WF' hn
+  dsimp only
+  split
+  · rw [GL.wf_iff]
+    apply GL.append_WF' h0
+    rw [values_ofList _ hn]
+    intro hm
+    rcases List.mem_append.1 hm with hm | hm
+    · simp only [List.mem_map] at hm
+      obtain ⟨x, _, hx⟩ := hm; cases hx
+    · simp at hm
+  · exact (GL.wf_iff _).2 h0
+
+theorem convertToValuesQuant_WF : ∀ (groups : List (List String)) (l2q : List (String × Val)) (g g' : GL),
+    g.WF' → Pipeline.convertToValuesQuant g groups l2q = .ok g' → g'.WF'
+  | [], _, g, g', h, he => by
+    simp [Pipeline.convertToValuesQuant, List.foldlM, pure, Except.pure] at he
+    subst he; exact h
+  | grp :: rest, l2q, g, g', h, he => by
+    unfold Pipeline.convertToValuesQuant at he
+    rw [List.foldlM_cons] at he
+    simp only [bind, Except.bind] at he
+    split at he
+    · cases he
+    · rename_i g1 hstep
+      have hg1 : g1.WF' := by
+        split at hstep
+        · cases hstep
+        · rename_i vals _
+          split at hstep
+          · cases hstep
+          · rename_i kept _
+            have hw := GL.groupList_WF' h vals kept
+            split at hstep
+            · rename_i g2 heq
+              simp only [pure, Except.pure, Except.ok.injEq] at hstep
+              subst hstep
+              rw [heq] at hw; exact hw
+            · cases hstep
+      exact convertToValuesQuant_WF rest l2q g1 g' hg1 he
+
+/-- `QuantitativeDiscretizer`: whenever the fit completes, the fitted order is well formed -/
+theorem quantOrder_WF (h : Pipeline.QHist) (nNan : Nat) (minFreq : Rat) (strNan : String) (g : GL)
+    (he : Pipeline.quantOrder h nNan minFreq strNan = .ok g) : g.WF := by
+  have h0 := (GL.wf_iff _).1 (contOrder_WF h nNan (Pipeline.qOf minFreq) strNan)
+  unfold Pipeline.quantOrder Pipeline.quantOrderQ at he
+  simp only [bind, Except.bind, pure, Except.pure] at he
+  split at he
+  · simp only [Except.ok.injEq] at he
+    subst he; exact (GL.wf_iff _).2 h0
+  · split at he
+    · cases he
+    · exact (GL.wf_iff _).2 (convertToValuesQuant_WF _ _ _ _ h0 he)
+
+theorem convertToValuesQual_WF : ∀ (groups : List (List Val)) (g g' : GL),
+    g.WF' → Pipeline.convertToValuesQual g groups = .ok g' → g'.WF'
+  | [], g, g', h, he => by
+    simp [Pipeline.convertToValuesQual, List.foldlM, pure, Except.pure] at he
+    subst he; exact h
+  | grp :: rest, g, g', h, he => by
+    unfold Pipeline.convertToValuesQual at he
+    rw [List.foldlM_cons] at he
+    simp only [bind, Except.bind] at he
+    split at he
+    · cases he
+    · rename_i g1 hstep
+      have hg1 : g1.WF' := by
+        split at hstep
+        · cases hstep
+        · rename_i kept _
+          have hw := GL.groupList_WF' h grp kept
+          split at hstep
+          · rename_i g2 heq
+            simp only [pure, Except.pure, Except.ok.injEq] at hstep
+            subst hstep
+            rw [heq] at hw; exact hw
+          · cases hstep
+      exact convertToValuesQual_WF rest g1 g' hg1 he
+
+/-- `OrdinalDiscretizer`: a well-formed ranking stays well formed, whatever is merged -/
+theorem ordinalOrder_WF (g : GL) (rows : Pipeline.Rows) (minFreq : Rat) (strNan : String) (g' : GL)
+    (hg : g.WF) (he : Pipeline.ordinalOrder g rows minFreq strNan = .ok g') : g'.WF := by
+  unfold Pipeline.ordinalOrder at he
+  dsimp only at he
+  rw [GL.wf_iff]
+  refine convertToValuesQual_WF _ _ _ ?_ he
+  split
+  · rename_i hc
+    apply GL.append_WF' ((GL.wf_iff _).1 hg)
+    simp only [Bool.and_eq_true, Bool.not_eq_true'] at hc
+    intro hm
+    have : g.contains (Arg.val (Val.str strNan)) = true := by
+      unfold GL.contains
+      rw [List.any_eq_true]
+      exact ⟨_, hm, by simp [GL.isEqual]⟩
+    rw [this] at hc
+    exact absurd hc.2 (by simp)
+  · exact (GL.wf_iff _).1 hg
+
+/-- `CategoricalDiscretizer`: whenever the fit completes, the fitted order is well formed
+    (it comes out of `sort_by`, which rebuilds the object) -/
+theorem catOrder_WF (provided : Option GL) (rows : Pipeline.Rows) (minFreq : Rat) (strNan strDefault : String)
+    (r : Pipeline.CatResult) (he : Pipeline.catOrder provided rows minFreq strNan strDefault = .ok r) : r.order.WF := by
+  unfold Pipeline.catOrder at he
+  cases h1 : Pipeline.catPrepare provided rows strNan strDefault with
+  | error e => rw [h1] at he; cases he
+  | ok p1 =>
+    rw [h1] at he
+    simp only [Except.bind] at he
+    cases h2 : Pipeline.catGroupRare p1.1 p1.2 (Pipeline.catToGroup p1.1 p1.2 minFreq strNan) strDefault with
+    | error e => rw [h2] at he; cases he
+    | ok p2 =>
+      rw [h2] at he
+      unfold Pipeline.catSort at he
+      dsimp only at he
+      split at he
+      · cases he
+      · split at he
+        · rename_i g3 hs
+          injection he with he
+          subst he
+          exact (GL.wf_iff _).2 (GL.sortBy_WF' hs)
+        · cases he
+
+
+-- the pipeline theorems are not vacuous: two over-represented values give the boundaries 0, 1, +inf; the empty last
+-- bucket is rare, so the feature goes through the merging loop and `convert_to_values`: +inf absorbs the bucket of 1
+example : (Pipeline.quantOrderQ [(0, 5, 3), (1, 5, 1)] 0 2 (1/2) "__NAN__").toOption.map (fun g => (g.lst, g.content)) =
+    some ([.num 0, .inf], [(.num 0, [.num 0]), (.inf, [.num 1, .inf])]) := by decide +kernel
+-- a categorical feature with one rare value ("c": 1 row of 8) and missing values
+example : (Pipeline.catOrder none [(some (.str "a"), 1), (some (.str "b"), 0), (some (.str "a"), 0), (none, 1),
+      (some (.str "c"), 1), (some (.str "a"), 1), (some (.str "b"), 0), (some (.str "a"), 0)] (1/5) "__NAN__" "__OTHER__").toOption.map
+      (fun r => (r.grouped, r.order.lst)) =
+    some ([.str "c"], [.str "b", .str "a", .str "__OTHER__", .str "__NAN__"]) := by decide +kernel
 end C08
